@@ -52,6 +52,12 @@ def _eval_assumptions(S_decl, vals):
 
 
 _BOUNDARY = None
+# floats at and just beside the limits of the 16/32-bit formats: largest finite values, the round-to-infinity midpoints and the
+# band between them, the smallest subnormals and their halves, ties of the significand
+FLOAT_BOUNDARY = [0.0, -0.0, 1.5, -2.25, 3.141592653589793, 65504.0, 65520.0, 1e5, -1e5, 3.4e38, 3.5e38, -1e39, 1e300, 5e-324, 6e-8, 1e-45,
+                  float('inf'), float('-inf'), 65510.0, -65519.99, 65519.996, -65504.0, -65520.0, 3.4028234663852886e38, 3.4028235e38,
+                  -3.40282355e38, 3.40282356e38, 3.4028235677973366e38, 2.0 ** -24, 2.0 ** -25, 1.5 * 2.0 ** -25, 2.0 ** -149, 2.0 ** -150,
+                  2049.0, 2051.0, 1.0 + 2.0 ** -11, 1.0 + 2.0 ** -24, 0.1, -0.1]
 
 
 def boundary_ints():
@@ -160,8 +166,7 @@ def gen_inputs(interp, shape, rng, n_samples, max_len=10, int_range=14, exhausti
             elif d[0] == 'bool':
                 vals[name] = rng.random() < 0.5
             elif d[0] == 'float':
-                vals[name] = rng.choice([0.0, -0.0, 1.5, -2.25, 3.141592653589793, 65504.0, 65520.0, 1e5, -1e5, 3.4e38, 3.5e38, -1e39, 1e300,
-                                         5e-324, 6e-8, 1e-45, float('inf'), float('-inf'), rng.uniform(-1e6, 1e6), rng.uniform(-1, 1)])
+                vals[name] = rng.choice(FLOAT_BOUNDARY + [rng.uniform(-1e6, 1e6), rng.uniform(-1, 1)])
             elif d[0] == 'view':
                 n = rng.choice([L, L, rng.randint(0, max_len)])
                 if name.endswith('.raw'):
